@@ -113,6 +113,32 @@ func Param(name string, def int) int {
 	return def
 }
 
+// All / Any / InSet / IteInt: branch-free combinators (single SMT terms under
+// the engine, plain evaluation natively).
+func All(cs ...bool) bool {
+	for _, c := range cs {
+		if !c {
+			return false
+		}
+	}
+	return true
+}
+func Any(cs ...bool) bool {
+	for _, c := range cs {
+		if c {
+			return true
+		}
+	}
+	return false
+}
+func InSet(b byte, set string) bool { return strings.IndexByte(set, b) >= 0 }
+func IteInt(c bool, a, b int) int {
+	if c {
+		return a
+	}
+	return b
+}
+
 // SettleHook lets a package say how to wait for its background goroutines.
 var SettleHook func()
 
